@@ -19,6 +19,11 @@ EXTRA = [
     ("squares_toggle", "x, y, z = 1, 1, 0\nwhile true:\n    z = 1 - z\n    x, y = x + z*x**2 - y**2, y + z*x**2 - y**2\nend\n"),
     ("squares_toggle_z", "z = 0\nwhile true:\n    z = 1 - z\n    x = 2*x + y**2 + z\n    y = 2*y - y**2 + 2*z\nend\n"),
     ("squares_lazy_z", "z = 0\nwhile true:\n    z = z + 1 {1/2} z\n    x = 2*x + y**2 + z\n    y = 2*y - y**2 + 2*z\nend\n"),
+    # two independent unsolvable blocks: several solutions whose effective parts use different effective monomials
+    ("two_blocks", "z = 0\nw = 0\nwhile true:\n    z = 1 - z\n    w = w + 1 {1/2} w + 2\n    x = 2*x + y**2 + z\n    y = 2*y - y**2 + 2*z\n    u = 3*u + v**2 + w\n    v = 3*v - v**2\nend\n"),
+    # effective variables assigned AFTER the defective ones, the later one reading the earlier one
+    ("effective_after", "z = 0\nw = 0\nwhile true:\n    x = 2*x + y**2 + w\n    y = 2*y - y**2 + z\n    z = z + 1 {1/2} z + 2\n    w = w + z\nend\n"),
+    ("effective_after_three", "a = 1\nz = 0\nw = 0\nwhile true:\n    x = x + y**2 + w\n    y = 3*y - y**2 + a\n    a = 2 - a\n    z = z + a {1/3} z\n    w = w + 2*z\nend\n"),
     ("dependent_init", "x = Bernoulli(1/2)\ny = 2*x\nwhile true:\n    s = Bernoulli(1/2)\n    if s == 0:\n        x, y = x + x*y, (1/3)*x + (2/3)*y + (x*y)\n    else:\n        x, y = x + y + (2/3)*x*y, 2*y + (2/3)*(x*y)\n    end\nend\n"),
 ]
 
